@@ -45,7 +45,7 @@ def run_shard(tier, seed, idx, n, res, tmp):
     b = budget(tier)
     for ci in range(idx, b['models'], n):
         cs = common.case_seed(PROPERTY, seed, ci)
-        m = gm.generate(cs)
+        m = gm.generate(cs, gm.make_profile(p_linebreak_literal=0.15))
         exp = irexpect.expect(m)
         for li, lay in enumerate([None, gr.Layout(cs + 1), gr.Layout(cs + 2)]):
             files = gr.render(m, lay)
